@@ -284,7 +284,7 @@ def fam_mvslice():
                    for a in (grid(n) if 'a' in op else [None]) for b in (grid(n) if 'b' in op else [None])]
             funcs.append((name, 'mvslice:%s:%d' % (op, c), ins))
     # 2-D (3 x 4 ints on an exact-size array.array): one axis with run-time a:b:c, the other full / reversed / indexed
-    m2 = 'memoryview(%s("i", range(12))).cast("B").cast("i", (3, 4))' % arr
+    m2 = 'memoryview(%s("i", [0, 1, 2, 3, 4, 5, 6, 7, 8, 9, 10, 11])).cast("B").cast("i", (3, 4))' % arr
     read2 = '    return [[s[i, j] for j in range(s.shape[1])] for i in range(s.shape[0])]\n'
     for op, other, sl, n in (('ax0', 'all', 'a:b:c, :', 3), ('ax0', 'rev', 'a:b:c, ::-1', 3), ('ax1', 'all', ':, a:b:c', 4), ('ax1', 'rev', '::-1, a:b:c', 4)):
         name = 'mvs2_%s_%s' % (op, other)
